@@ -12,22 +12,26 @@ Inductive case :=
   | CaseFactor (id delay : Z) (jf draw : fl) (obs : Z)
   (* one execution whose function fails at once every time: per retry (delay, instant of scheduling, instant the next attempt starts),
      instants relative to the execution's start *)
-  | CaseSeq (id : Z) (c : dcfg) (tbl : list (Z * Z)) (obs : list (Z * Z * Z)).
+  | CaseSeq (id : Z) (c : dcfg) (tbl : list (Z * Z))
+            (lag : Z)   (* time the failure listener and the delay function take between an attempt's failure and the scheduling of the retry *)
+            (obs : list (Z * Z * Z)).
 
 Definition case_id (c : case) : Z :=
-  match c with CaseRange id _ _ _ _ | CaseJitter id _ _ _ _ | CaseFactor id _ _ _ _ | CaseSeq id _ _ _ => id end.
+  match c with CaseRange id _ _ _ _ | CaseJitter id _ _ _ _ | CaseFactor id _ _ _ _ | CaseSeq id _ _ _ _ => id end.
 
 Definition randomised (c : dcfg) : bool :=
   negb (d_jitter c =? 0) || negb (fst (d_jitter_factor c) =? 0) || ((d_delay c =? 0) && negb (d_min c =? 0) && negb (d_max c =? 0)).
 
-(* deterministic configurations: the exact sequence; the function takes no time, so the k-th delay is
-   scheduled at the sum of the previous ones *)
-Fixpoint seq_model (c : dcfg) (tbl : list (Z * Z)) (n : nat) (k last elapsed : Z) : list (Z * Z * Z) :=
+(* deterministic configurations: the exact sequence; the function takes no time, the listeners and the delay function
+   take [lag], so the k-th delay is scheduled at the sum of the previous ones and lags; the max-duration clamp uses the
+   elapsed time at that instant *)
+Fixpoint seq_model (c : dcfg) (tbl : list (Z * Z)) (lag : Z) (n : nat) (k last elapsed : Z) : list (Z * Z * Z) :=
   match n with
   | O => []
   | S n' =>
-      let '(d, last') := get_delay c last (k - 1) elapsed (dfn_at tbl k) (0, 1) (0, 1) (0, 1) in
-      (d, elapsed, elapsed + d) :: seq_model c tbl n' (k + 1) last' (elapsed + d)
+      let t := elapsed + lag in
+      let '(d, last') := get_delay c last (k - 1) t (dfn_at tbl k) (0, 1) (0, 1) (0, 1) in
+      (d, t, t + d) :: seq_model c tbl lag n' (k + 1) last' (t + d)
   end.
 
 Fixpoint triples_eqb (a b : list (Z * Z * Z)) : bool :=
@@ -42,8 +46,8 @@ Definition agrees (c : case) : bool :=
   | CaseRange _ a b d o => random_delay_in_range a b d =? o
   | CaseJitter _ dl j d o => random_delay dl j d =? o
   | CaseFactor _ dl jf d o => random_delay_factor dl jf d =? o
-  | CaseSeq _ cfg tbl obs =>
-      if randomised cfg then true else triples_eqb (seq_model cfg tbl (length obs) 1 0 0) obs
+  | CaseSeq _ cfg tbl lag obs =>
+      if randomised cfg then true else triples_eqb (seq_model cfg tbl lag (length obs) 1 0 0) obs
   end.
 
 (* the envelope of the property, evaluated on the implementation's observations *)
@@ -84,7 +88,7 @@ Definition envelope_ok (c : case) : bool :=
   | CaseJitter _ dl j d o => (dl - j <=? o) && (o <=? dl + j)
   | CaseFactor _ dl jf d o =>
       let s := (dl * fst jf) / snd jf + dl / 2097152 + 2 in (dl - s <=? o) && (o <=? dl + s)
-  | CaseSeq _ cfg tbl obs => seq_envelope cfg tbl 1 0 obs
+  | CaseSeq _ cfg tbl _ obs => seq_envelope cfg tbl 1 0 obs
   end.
 
 Definition mismatches (cs : list case) : list Z := map case_id (filter (fun c => negb (agrees c)) cs).
